@@ -268,6 +268,11 @@ class Prov:
             v = o.get("val")
             if v is None and "bytes" in o:
                 v = ("bytes",) + tuple(o["bytes"])
+            if v is None and d is not None:
+                rec = self.body.prog.consts.get(d)
+                if rec is not None and isinstance(rec.get("fields"), list):
+                    # a named tuple constant, e.g. `const NO_CACHING: (&str, &str) = (..)`: the tuple of its field values
+                    return ("agg", "tuple", tuple((str(i), ("const", None, f.get("val"), f.get("ty", "?"))) for i, f in enumerate(rec["fields"])))
             if d is not None and v is None:
                 v = self.body.prog.const_value(d)
             if isinstance(v, list):
